@@ -473,6 +473,10 @@ func (c *HTTPClient) discover() error {
 			c.topology.Update(primary, secondaries...)
 			break
 		}
+		// This node cannot tell us the topology. doReq only marks an
+		// endpoint dead on transport and 5xx errors; without marking it
+		// here a node that answers 4xx would be asked again forever.
+		e.MarkAsDead()
 	}
 
 	return nil
